@@ -17,7 +17,9 @@ RULE = ("one case = one query on one REAL AnnotationCollection (genes with trans
         "bounds) x all 8 flag combinations; (2) random collections of <= 4 children on a genome of length <= 12 x "
         "ALL ranges x all flags; (3) GUID / interval-GUID / identifier queries for all subsets of ids (plus unknown "
         "and repeated ids) and child-level query_by_guids; (4) synthetic coordinates around multiples of 2^17 .. 2^29 "
-        "(and past 2^29) for the bin pre-filter. non-trivial = the library returned a collection and the source has "
+        "(and past 2^29) for the bin pre-filter, plus a boundary-value scope: members whose start / end sit at "
+        "k*2^17 + {-1,0,1} (k in 1,2,7,8,9), 2^23 +- 1, 2^26 +- 1 with query bounds from the same values and offsets "
+        "inside the same finest bin, strict and relaxed, expanded or not. non-trivial = the library returned a collection and the source has "
         ">= 1 child; distinct = distinct operation lines")
 EXHAUSTIVE_NOTE = ""
 TRUSTED = ["Model/Query.lean is hand-written; tied to gene/collections.py, gene.py, feature.py, variants.py by this run's "
@@ -299,6 +301,82 @@ def bin_cases(run, n_colls):
                 yield f"qpos {src} {coll} {s} {e} {fl}"
 
 
+def boundary_cases(run):
+    """boundary-value scope for the bin PRE-FILTER (`completely_within and start and end`): members whose start / end
+    sit at k*2^17 + {-1,0,+1}, k in {1,2,7,8,9} (8*2^17 = 2^20), at 2^23 +- 1 and 2^26 +- 1; query bounds from the
+    same values plus offsets inside the same finest bin (-600, -3000) and the member's own coordinates +- 1; both
+    completely_within values, expansion on and off; sequence-less parent / no parent (no big strings)."""
+    rng = run.rng
+    quick = run.tier == "quick"
+    B = 2 ** 17
+    V = sorted({k * B + d for k in (1, 2, 7, 8, 9) for d in (-1, 0, 1)}
+               | {2 ** 23 + d for d in (-1, 0, 1)} | {2 ** 26 + d for d in (-1, 0, 1)})
+    QV = sorted(set(V) | {v - 600 for v in V} | {v - 3000 for v in V})
+    top = 2 ** 27
+    flags4 = ["0 1 0", "0 0 0", "0 1 1", "0 0 1"]
+
+    def ranges_for(kids, cap):
+        lo = min(span(k)[0] for k in kids)
+        hi = max(span(k)[1] for k in kids)
+        cand = {q for q in QV if lo - 4000 < q < hi + 4000}
+        for k in kids:
+            for a, b, _ in k[3] + [span(k) + ("+",)]:
+                cand |= {a - 1, a, a + 1, b - 1, b, b + 1, a - 90}
+        cand = sorted(c for c in cand if c >= 0)
+        rs = [(x, y) for x in cand for y in cand if x < y]
+        # the ranges that END on a member end / START on a member start are always kept
+        ends = {span(k)[1] for k in kids} | {g[1] for k in kids for g in k[3]}
+        starts = {span(k)[0] for k in kids} | {g[0] for k in kids for g in k[3]}
+        must = [r for r in rs if r[1] in ends or r[0] in starts]
+        rest = [r for r in rs if not (r[1] in ends or r[0] in starts)]
+        rng.shuffle(rest)
+        rng.shuffle(must)
+        return must[: cap] + rest[: cap // 3]
+
+    # (a) one member that ends (or starts) exactly on / next to a boundary value
+    for v in V:
+        for a, b in ((v - 1, v), (v - 510, v), (v - 2001, v), (v, v + 300), (v - 131072, v)):
+            if a < 0:
+                continue
+            for kind in "gf":
+                variants = [[(a, b, "+")]]
+                if b - a > 2:
+                    variants.append([(a, b, "-"), (a + 1, b, "+")])      # every grandchild ends on the value
+                    variants.append([(a, b - 1, "+"), (a + 1, b, "-")])    # only one does
+                for gcs in (variants if not quick else variants[:1] + variants[1:][: 1 if rng.random() < 0.5 else 0]):
+                    coding = kind == "g" and rng.random() < 0.4
+                    kids = [(kind, coding, "-", gcs)]
+                    coll = enc_coll(kids)
+                    for src in (f"P 1 {top}", "N - -"):
+                        run.count("boundary:single (coll,parent)")
+                        for x, y in ranges_for(kids, 14 if quick else 60):
+                            for fl in (flags4 + (["1 1 0"] if coding else [])):
+                                run.count("boundary:query" + (" strict,start!=0" if fl[2] == "1" and x != 0 else ""))
+                                yield f"qpos {src} {coll} {x} {y} {fl}"
+    # (b) 1-3 members with coordinates from the value set
+    for _ in range(40 if quick else 600):
+        kids = []
+        for _c in range(rng.randint(1, 3)):
+            kind = rng.choice("gf")
+            gcs = []
+            for _g in range(rng.randint(1, 2)):
+                a, b = sorted((rng.choice(QV), rng.choice(QV)))
+                if rng.random() < 0.6:
+                    b = rng.choice([q for q in V if q >= a] or [b])
+                    a = rng.choice([b - 1, b - 510, b - 2001, a])
+                a, b = max(0, min(a, b)), max(a, b)
+                gcs.append((a, b, rng.choice("+-")))
+            coding = kind == "g" and rng.random() < 0.3 and any(b > a for a, b, _ in gcs)
+            kids.append((kind, coding, "-", gcs))
+        coll = enc_coll(kids)
+        src = rng.choice([f"P 1 {top}", f"P 0 {top}", f"N 1 {top}", "P - -"])
+        run.count("boundary:multi (coll,parent)")
+        for x, y in ranges_for(kids, 20 if quick else 60):
+            for fl in flags4:
+                run.count("boundary:query" + (" strict,start!=0" if fl[2] == "1" and x != 0 else ""))
+                yield f"qpos {src} {coll} {x} {y} {fl}"
+
+
 # ------------------------------------------------------------------------------------------------
 
 def single_children(L):
@@ -427,3 +505,5 @@ def cases(run):
 
     # (4) bin path
     yield from bin_cases(run, 60 if quick else 900)
+    # (4b) boundary values of the bin scheme
+    yield from boundary_cases(run)
